@@ -75,7 +75,13 @@ def check(patch, pids):
             evp = os.path.join(tmp, "ev", "%s.json" % pid)
             if os.path.exists(evp):
                 ev = json.load(open(evp))
-                fired = sorted(k for k, c in ev["coverage"].get("rules", {}).items() if c.get("violated"))
+                known = {k["rule"] for k in json.load(open(os.path.join(VERIF, "known_findings.json")))["known"]}
+                fired = sorted(k for k, c in ev["coverage"].get("rules", {}).items() if c.get("violated") and
+                               not (k in known and r.returncode == 0))
+                if r.returncode == 1:
+                    new = {os.path.basename(l.split("replay=")[1]).rsplit(".", 2)[0] for l in r.stdout.splitlines()
+                           if l.startswith("VIOLATION")}
+                    fired = sorted(new)
             viol = [l for l in r.stdout.splitlines() if l.startswith("    ")]
             err = [l for l in r.stdout.splitlines() if l.startswith("ANALYSIS-ERROR")]
             return pid, r.returncode, fired, viol[:3], err[:1]
@@ -94,3 +100,39 @@ if __name__ == "__main__":
     elif sys.argv[1] == "check":
         pids = sys.argv[3:] or ["C%02d" % i for i in range(1, 21)]
         print(json.dumps(check(sys.argv[2], pids), indent=1))
+
+
+def keep(d, v, pid, needs, all_props=False):
+    """confirm + check + store under /verif/seeded/<pid><v>/"""
+    c = confirm(d, v)
+    if not c.get("confirmed"):
+        print("NOT CONFIRMED", json.dumps(c, indent=1))
+        return 1
+    pids = ["C%02d" % i for i in range(1, 21)]
+    res = check(os.path.join(d, "patch_%s.diff" % v), pids)
+    out = os.path.join(VERIF, "seeded", "%s%s" % (pid, v))
+    os.makedirs(out, exist_ok=True)
+    shutil.copy(os.path.join(d, "patch_%s.diff" % v), os.path.join(out, "patch.diff"))
+    shutil.copy(os.path.join(d, "demo_%s.py" % v), os.path.join(out, "demo.py"))
+    notes = os.path.join(d, "notes_%s.md" % v)
+    if os.path.exists(notes):
+        shutil.copy(notes, os.path.join(out, "notes.md"))
+    own = res.get(pid, {})
+    meta = {"id": "%s%s" % (pid, v), "breaks_property": pid, "needs_to_manifest": needs,
+            "what_was_run": {"suite_with_change": c["suite"], "demo_with_change_exit": c["demo_with_change_rc"],
+                             "demo_on_clean_tree_exit": c["demo_clean_rc"],
+                             "commands": ["git apply patch.diff (scratch worktree of /repo); setup.py build_ext --inplace",
+                                          "PYTHONPATH=<tree>/src /venv/bin/python -m pytest -q -p no:cacheprovider --timeout=900",
+                                          "PYTHONPATH=<tree>/src /venv/bin/python demo.py"]},
+            "caught_by_own_property_check": own.get("rc") == 1, "rules_fired_own_property": own.get("fired", []),
+            "other_properties_that_fire": {k: r["fired"] for k, r in res.items() if k != pid and r.get("rc") == 1},
+            "analysis_errors": {k: r["err"] for k, r in res.items() if r.get("rc") == 2},
+            "origin": "independent sub-agent given only the property text and a scratch worktree"}
+    json.dump(meta, open(os.path.join(out, "meta.json"), "w"), indent=1)
+    print(pid + v, "caught" if meta["caught_by_own_property_check"] else "MISSED", meta["rules_fired_own_property"],
+          "others:", meta["other_properties_that_fire"], "errors:", meta["analysis_errors"])
+    return 0
+
+
+if __name__ == "__main__" and sys.argv[1] == "keep":
+    sys.exit(keep(sys.argv[2], sys.argv[3], sys.argv[4], sys.argv[5]))
